@@ -33,7 +33,7 @@ PROP = dict(
               'Fit.C13.C13_mesg_struct_mesg_partial', 'Fit.C13.C13_KF_witnesses', 'Fit.C13.C13_full_is_false',
               'Fit.C13.C13_struct_mesg_struct_norm', 'Fit.C13.C13_struct_mesg_struct_partial', 'Fit.C13.C13_inRange_iff', 'Fit.C13.C13_normDoc_fixes',
               'Fit.C13.C13_struct_class_witnesses', 'Fit.C13.C13_struct_full_is_false', 'Fit.C13.C13_dev_fields_kept', 'Fit.C13.C13_KF3_fixed_witness'],
-    families=[dict(name='typed', spec=True)],
+    families=[dict(name='typed', spec=True, prop=True)],
     trusted_base=STD_TRUST + [
         "fitharness regen mesgdef: the per-message tables (slot kinds, accepted value type, read/emit field number, default, sentinel, emission order, guard, expanded-bitmap bound, eligible numbers) are obtained from the COMPILED code by reflection over the structs and by probing Reset/ToMesg/MarkAsExpandedField/IsExpandedField with one field per number 0..255 x 24 value types and candidate contents per slot; a behaviour the table cannot express fails the translator",
         "translators/registry.py lists every mesgdef.NewXxx by its declaration signature",
